@@ -20,6 +20,8 @@ pub struct Extra<T> {
     pub ranges: Vec<(&'static str, usize, usize, Result<Vec<T>, String>)>,
     /// (api, index, result) of stored-only point reads
     pub points: Vec<(&'static str, usize, Result<Option<T>, String>)>,
+    /// (api, index, result) of point reads that see buffered values, updates and deletions
+    pub logical: Vec<(&'static str, usize, Result<Option<T>, String>)>,
 }
 
 pub fn raw_extra<I, T, S>(
@@ -60,6 +62,14 @@ pub fn raw_extra<I, T, S>(
         }
         out.points
             .push(("vec_reader:try_get", i, guarded(|| v.reader().try_get(i))));
+        // a read of the stored layer through an explicit Reader: the stored value, or an error
+        out.points
+            .push(("read_at_once", i, guarded(|| v.read_at_once(i).ok())));
+        out.logical.push((
+            "get_any_or_read_at",
+            i,
+            guarded(|| v.get_any_or_read_at(i, &v.create_reader()).ok().flatten()),
+        ));
         if i < v.stored_len() {
             out.points
                 .push(("vec_reader:get", i, guarded(|| Some(v.reader().get(i)))));
@@ -614,7 +624,16 @@ where
         v.s_extra_reads(f, t, &mut extra);
         cx.check_accesses("stored_only");
     }
-    cx.calls += (extra.ranges.len() + extra.points.len()) as u64;
+    cx.calls += (extra.ranges.len() + extra.points.len() + extra.logical.len()) as u64;
+    for (api, i, r) in std::mem::take(&mut extra.logical) {
+        match r {
+            Err(p) => {
+                let loc = p.split(": ").next().unwrap_or("?").to_string();
+                cx.push("C08", api, &format!("panic:{loc}"), p);
+            }
+            Ok(got) => cx.expect_opt(api, &format!("index {i}"), got, m.items.get(i).copied().flatten()),
+        }
+    }
     for (api, f, t, r) in extra.ranges {
         match r {
             Err(p) => {
